@@ -114,6 +114,29 @@ run_history(const uint32_t size, char** const tok, const int n_ops)
       free(src);
       break;
     }
+    case 'W':
+    case 'A': {
+      // a request of more bytes than the whole buffer, from a source block of capacity + 64 bytes only: it must be
+      // refused without being read (ASan reports any access beyond the block)
+      const uint32_t n   = (uint32_t)strtoul(arg, NULL, 10);
+      const size_t   len = (size_t)zix_ring_capacity(ring) + 64U;
+      unsigned char* src = (unsigned char*)malloc(len);
+      memset(src, 0x5A, len);
+      if (n <= zix_ring_capacity(ring)) {
+        fputs("?", stdout);
+      } else if (t[0] == 'W') {
+        printf("%u:-", zix_ring_write(ring, src, n));
+      } else {
+        put_status(zix_ring_amend_write(ring, &tx, src, n));
+        fputs(":-", stdout);
+      }
+      free(src);
+      break;
+    }
+    case 'm':
+      (void)zix_ring_mlock(ring); // status depends on RLIMIT_MEMLOCK: not compared
+      fputs(".:-", stdout);
+      break;
     case 'r':
       do_read(ring, (uint32_t)strtoul(arg, NULL, 10), 0);
       break;
